@@ -174,6 +174,11 @@ func (rt *runtime) cmplEvaluateNodeBracketExpression(node *nodeBracketExpression
 
 	// TODO Pass in base value as-is, and defer toObject till later?
 	obj, err := rt.objectCoerce(targetValue)
+	if err != nil && memberValue.IsObject() {
+		// 11.2.1: CheckObjectCoercible(baseValue) (step 5) precedes ToString of the
+		// property name (step 6): an object key is not converted for the message.
+		panic(rt.panicTypeError("Cannot access member of %s", err, at(node.idx)))
+	}
 	if err != nil {
 		panic(rt.panicTypeError("Cannot access member %q of %s", memberValue.string(), err, at(node.idx)))
 	}
